@@ -20,7 +20,7 @@ import (
 
 func init() { register("C13", "exploration", checkC13) }
 
-var bufSchedules = []string{"one", "zero-one", "rand64", "rand100k", "edges", "big"}
+var bufSchedules = []string{"one", "zero-one", "rand64", "rand100k", "edges", "big", "zero-runs"}
 var fragKinds = []string{"whole", "one", "short", "eofwith"}
 
 func c13Streams(c *ev.Ctx) []tstream {
@@ -138,7 +138,7 @@ func c13Streams(c *ev.Ctx) []tstream {
 }
 
 func checkC13(c *ev.Ctx) {
-	c.SetRule("triples (valid stream, schedule of Read buffer lengths, source fragmentation): streams of all three formats (multi-block, multi-chunk, multi-stream, small and ~200 KB); buffer schedules: constant 1, alternating 0/1, random 0..64, random 0..100000, lengths at block/chunk/dictionary edges +-1, one large; fragmentations: whole, 1 byte, random short reads, data together with io.EOF; with and without io.ByteReader. The full (len(p), n, err) sequence is monitored. distinct non-trivial = distinct (stream, schedule, fragmentation, ByteReader?) triples")
+	c.SetRule("triples (valid stream, schedule of Read buffer lengths, source fragmentation): streams of all three formats (multi-block, multi-chunk, multi-stream, small and ~200 KB); buffer schedules: constant 1, alternating 0/1, data reads separated by runs of 5..5000 zero-length reads, random 0..64, random 0..100000, lengths at block/chunk/dictionary edges +-1, one large; fragmentations: whole, 1 byte, random short reads, data together with io.EOF; with and without io.ByteReader. The full (len(p), n, err) sequence is monitored. distinct non-trivial = distinct (stream, schedule, fragmentation, ByteReader?) triples")
 	c.Assume("sources never return (0, nil) for a non-empty buffer (the property does not cover such sources)")
 	streams := c13Streams(c)
 	n := 12000
@@ -196,6 +196,7 @@ func checkC13(c *ev.Ctx) {
 			edges := []int{4095, 4096, 4097, 65535, 65536, 65537, 50000, 49999, 50001, 7000, 6999, 273}
 			nilZero := 0
 			afterEOF := 0
+			zrun, zbudget := 0, 60000
 			maxSteps := 3*len(s.Content) + 100000 // a logical bound: even alternating 0/1-byte reads need only 2 calls per byte
 			for step := 0; step < maxSteps; step++ {
 				var l int
@@ -210,6 +211,19 @@ func checkC13(c *ev.Ctx) {
 					l = r.Intn(100001)
 				case "edges":
 					l = edges[r.Intn(len(edges))] + r.Intn(3) - 1
+				case "zero-runs":
+					// long monotonous stretches of empty reads between data reads: a caller
+					// polling with an empty buffer must neither lose data nor end the stream
+					if zrun > 0 {
+						zrun--
+						l = 0
+					} else if r.Chance(1, 40) && zbudget > 0 {
+						zrun = r.Pick(5, 99, 100, 101, 150, 1000, 5000)
+						zbudget -= zrun
+						l = 0
+					} else {
+						l = 1 + r.Intn(r.Pick(3, 64, 3000))
+					}
 				default:
 					l = 1 << 20
 				}
